@@ -9,6 +9,7 @@
 #include <memory>
 
 #include "common/families.hpp"
+#include "common/fence_alloc.hpp"
 #include "common/refjson.hpp"
 #include "common/runner.hpp"
 #include "common/sonic_cmp.hpp"
@@ -25,6 +26,8 @@ static size_t heap_bytes() { return 0; }
 using namespace sonic_json;
 using PoolDoc = Document;
 using TrackDoc = GenericDocument<DNode<ta::TrackingAllocator>>;
+// production builds: every block directly in front of an inaccessible page (see common/fence_alloc.hpp)
+using FenceDoc = GenericDocument<DNode<fa::FenceAllocator>>;
 
 // every 16th key is its predecessor plus a trailing NUL byte: distinct keys that differ only in length / by a NUL
 static std::string kname(unsigned i) {
@@ -294,6 +297,12 @@ struct Sweep {
   }
 
   static void finish(const std::string& desc, size_t h0, vr::Ctx& ctx) {
+    if (std::is_same<Doc, FenceDoc>::value) {
+      if (fa::table().errors || !fa::table().live.empty()) {
+        ctx.violation("fence_ledger", "sweep_fence_ledger", desc, "fence allocator: %d foreign frees, %zu blocks still allocated after the documents died", fa::table().errors, fa::table().live.size());
+        fa::table().errors = 0;
+      }
+    }
     if (kTrack) {
       ta::Ledger& L = ta::ledger();
       if (L.errors) ctx.violation("ledger_error", "sweep_ledger_error", desc, "%s", L.first_error.c_str());
@@ -319,15 +328,20 @@ int main(int argc, char** argv) {
     for (int d = -1; d <= 1; d++)
       if (b + d > (quick ? 70u : 130u) && !(quick && b == 1024u)) NS.push_back(b + d);
   const std::string sizes = std::string("every n in 0..") + (quick ? "70 and 127..129, 255..257" : "130 and 255..257, 1023..1025");
+#if defined(__SANITIZE_ADDRESS__)
+  const unsigned NALLOC = 2;
+#else
+  const unsigned NALLOC = 3;  // + the fence allocator
+#endif
   vr::Family fo, fa;
   fo.name = "W_objects";
-  fo.count = (uint64_t)NS.size() * 3 * 3 * NOPS_OBJ * 2;
+  fo.count = (uint64_t)NS.size() * 3 * 3 * NOPS_OBJ * NALLOC;
   fo.group = "WO";
   fo.chunk = 16;
   fo.rule = "objects of " + sizes + " members with values of four kinds, built in 3 ways (AddMember with copied keys / with constant keys / Parse) x 3 lookup-map states (absent / created after the build / created half way so that later AddMembers update it) x " +
-            std::to_string((int)NOPS_OBJ) + " operations (RemoveMember of the first / middle / last / a missing key, 5 EraseMember ranges, AddMember once and n+1 times, MemberReserve, Clear, CopyFrom + change of the source, move out and back, DestroyMap, CreateMap, RemoveMember of all members from either end, remove + re-add, document copy + ==) x pool / ledger-tracking freeing allocator; after the build and after the operation every accessor (keyed lookups included) agrees with the model, with the lookup map toggled on and off, Dump() round-trips, and nothing stays allocated";
+            std::to_string((int)NOPS_OBJ) + " operations (RemoveMember of the first / middle / last / a missing key, 5 EraseMember ranges, AddMember once and n+1 times, MemberReserve, Clear, CopyFrom + change of the source, move out and back, DestroyMap, CreateMap, RemoveMember of all members from either end, remove + re-add, document copy + ==) x pool / ledger-tracking freeing allocator / (production builds) fence allocator that puts every block directly in front of an inaccessible page; after the build and after the operation every accessor (keyed lookups included) agrees with the model, with the lookup map toggled on and off, Dump() round-trips, and nothing stays allocated";
   fa.name = "W_arrays";
-  fa.count = (uint64_t)NS.size() * 3 * NOPS_ARR * 2;
+  fa.count = (uint64_t)NS.size() * 3 * NOPS_ARR * NALLOC;
   fa.group = "WA";
   fa.chunk = 16;
   fa.rule = "arrays of " + sizes + " elements built in 3 ways (PushBack / Reserve + PushBack / Parse) x " + std::to_string((int)NOPS_ARR) + " operations (PopBack, 5 Erase ranges, PushBack once and n+1 times, Reserve, Clear, CopyFrom + change of the source, move out and back, element assignment) x the two allocators; same oracle";
@@ -349,8 +363,8 @@ int main(int argc, char** argv) {
       }
       ctx.quiet = q;
     }
-    unsigned alloc = (unsigned)(idx % 2);
-    idx /= 2;
+    unsigned alloc = (unsigned)(idx % NALLOC);
+    idx /= NALLOC;
     if (f.name[2] == 'o') {
       unsigned op = (unsigned)(idx % NOPS_OBJ);
       idx /= NOPS_OBJ;
@@ -360,8 +374,10 @@ int main(int argc, char** argv) {
       unsigned n = NS[idx / 3];
       if (alloc == 0)
         Sweep<PoolDoc>::object_case(n, build, mapst, op, ctx);
-      else
+      else if (alloc == 1)
         Sweep<TrackDoc>::object_case(n, build, mapst, op, ctx);
+      else
+        Sweep<FenceDoc>::object_case(n, build, mapst, op, ctx);
     } else {
       unsigned op = (unsigned)(idx % NOPS_ARR);
       idx /= NOPS_ARR;
@@ -369,8 +385,10 @@ int main(int argc, char** argv) {
       unsigned n = NS[idx / 3];
       if (alloc == 0)
         Sweep<PoolDoc>::array_case(n, build, op, ctx);
-      else
+      else if (alloc == 1)
         Sweep<TrackDoc>::array_case(n, build, op, ctx);
+      else
+        Sweep<FenceDoc>::array_case(n, build, op, ctx);
     }
   };
   std::vector<vr::Family> fams = {fo, fa};
